@@ -116,6 +116,24 @@ def gen_cls(rng):
     return sc
 
 
+def gen_clsren(rng):
+    """class change after service (possibly changing priority) followed by reneging / pre-emption downstream"""
+    sc = gen_cls(rng)
+    K = sc["K"]
+    for n in range(sc["N"]):
+        nd = sc["nodes"][n]
+        if nd["c"] >= INF or nd["c"] == 0:
+            nd["c"] = 1
+        nd["qcap"] = INF
+    sc["syscap"] = INF
+    sc["patS"] = [[(samples(rng, 0, 4, 2) if rng.random() < 0.7 else []) for _ in range(K)] for n in range(sc["N"])]
+    sc["patS"][1][0] = sc["patS"][1][0] or [1, 2]
+    for n in range(sc["N"]):
+        for k in range(K):
+            sc["svcS"][n][k] = samples(rng, 1, 5, 2)
+    return sc
+
+
 def gen_renege(rng):
     K = rng.choice([1, 2])
     sc = gen_tandem(rng, N=rng.choice([1, 2]), K=K)
@@ -279,6 +297,23 @@ def gen_ccw(rng, N=1):
     return sc
 
 
+def gen_trk(rng):
+    base = rng.choice([gen_tandem, gen_tandem, gen_cls, gen_renege, gen_ccw, lambda r: gen_prio(r, preempt=True), gen_core1])
+    sc = base(rng)
+    N = sc["N"]
+    sc["tracker"] = rng.choice(["system", "node", "subset", "grouped", "nodeclass", "naive", "matrix"])
+    obs = sorted(rng.sample(range(N), rng.randint(1, N)))
+    sc["observed"] = obs
+    nodes = list(range(N))
+    rng.shuffle(nodes)
+    cut = rng.randint(1, N)
+    groups = [sorted(nodes[:cut])]
+    if cut < N and rng.random() < 0.7:
+        groups.append(sorted(nodes[cut:]))
+    sc["groups"] = groups
+    return sc
+
+
 def gen_stopcount(rng):
     base = rng.choice([gen_core1, gen_tandem, gen_prio, gen_renege, gen_cls])
     sc = base(rng)
@@ -312,6 +347,8 @@ def gen_stopcount(rng):
 
 FAMILIES = {
     "stopcount": gen_stopcount,
+    "trk": gen_trk,
+    "clsren": gen_clsren,
     "sched": gen_sched,
     "schedpre": lambda rng: gen_sched(rng, pre_choices=(1, 2, 3)),
     "slot": gen_slot,
@@ -435,6 +472,14 @@ def mc_instances(name, tier):
             fam.append({"N": 1, "K": 2, "prio": prio, "nodes": [{"c": 1, "pp": pp}],
                         "arrS": [[[1, 2], [2]]], "svcS": [[[2, 3], [1]]], "cct": [[[], [1, 2]], [[], []]],
                         "route": [tm([[0]]), tm([[0]])], "T": 7 if not big else 9})
+        return [(fam, 4 if not big else 5)]
+    if name == "trk":
+        fam = []
+        for t in ["system", "node", "subset", "grouped", "nodeclass", "naive", "matrix"]:
+            fam.append({"N": 2, "K": 2, "prio": [0, 0], "tracker": t, "observed": [1], "groups": [[1], [0]],
+                        "nodes": [{"c": 1, "qcap": 1, "ccm": [[2, 2], [0, 4]]}, {"c": 1, "qcap": 0, "ccm": [[4, 0], [0, 4]]}],
+                        "arrS": [[[1, 2], []], [[], [2]]], "svcS": [[[1], [2]], [[1, 2], [2]]],
+                        "route": [tm([[0, 4], [2, 0]]), tm([[0, 2], [2, 0]])], "T": 6 if not big else 8})
         return [(fam, 4 if not big else 5)]
     if name == "stopcount":
         fam = []
